@@ -25,9 +25,9 @@ Fixpoint bind_list (ws : list jv) (f : jv -> result) : result :=
   | w :: r => seq (f w) (bind_list r f)
   end.
 Definition bind (r : result) (f : jv -> result) : result :=
-  match r with
-  | (ws, None) => bind_list ws f
-  | (ws, Some x) => seq (bind_list ws f) ([], Some x)
+  match bind_list (fst r) f with
+  | (os, Some x) => (os, Some x)
+  | (os, None) => (os, snd r)         (* the generator's own ending comes last *)
   end.
 
 Definition of_sum (r : jv + err0) : result :=
